@@ -234,7 +234,9 @@ func c12Value(c *core.Ctx) {
 			dateParam = sig.Params().At(i)
 		}
 	}
-	// the loop
+	// decided on the normalised view (index loops are range loops there)
+	fd = p.Inlined(fd)
+	info = fd.Pkg.TypesInfo
 	var loop *ast.RangeStmt
 	for _, s := range fd.Decl.Body.List {
 		if rs, ok := s.(*ast.RangeStmt); ok && core.IsFieldOfVar(info, rs.X, recv, "Values") {
@@ -242,37 +244,19 @@ func c12Value(c *core.Ctx) {
 		}
 	}
 	if loop == nil {
-		c.Ob("C12-R1", fd.Name()+"#loop", fd.Decl.Pos(), false, "no top-level forward range loop over <receiver>.Values")
+		c.Ob("C12-R1", fd.Name()+"#loop", fd.Decl.Pos(), false, "NOT FOUND: no top-level forward loop over <receiver>.Values")
 		return
 	}
 	elem := core.VarOf(info, loop.Value)
-	if elem == nil && loop.Key != nil {
+	if elem == nil {
 		c.Undecided("C12-R1", fd.Name()+"#loop", loop.Pos(), "loop does not bind the element")
 		return
 	}
-	// returns of the element inside the loop
-	var rets []*ast.ReturnStmt
-	ast.Inspect(loop.Body, func(n ast.Node) bool {
-		if r, ok := n.(*ast.ReturnStmt); ok {
-			rets = append(rets, r)
-		}
-		return true
-	})
-	okFirst := len(rets) == 1 && len(rets[0].Results) == 1 && core.VarOf(info, rets[0].Results[0]) == elem
-	c.Ob("C12-R1", fd.Name()+"#first-match", loop.Pos(), okFirst, "the loop does not return the range element at its single return: the first accepted value in table order is not what is returned")
 	// after the loop: return nil
 	last := fd.Decl.Body.List[len(fd.Decl.Body.List)-1]
 	lr, isRet := last.(*ast.ReturnStmt)
 	c.Ob("C12-R1", fd.Name()+"#none-is-nil", last.Pos(), isRet && len(lr.Results) == 1 && core.IsNil(info, lr.Results[0]) && last.Pos() > loop.End(),
 		"when no value is accepted the function does not return nil (a guess would be made)")
-	if !okFirst {
-		return
-	}
-	conds := enclosingConds(loop.Body, rets[0])
-	if len(conds) == 0 {
-		c.Ob("C12-R1", fd.Name()+"#predicate", rets[0].Pos(), false, "the element is returned unconditionally")
-		return
-	}
 	class := func(e ast.Expr) string {
 		e = ast.Unparen(e)
 		if st, ok := e.(*ast.StarExpr); ok {
@@ -293,6 +277,16 @@ func c12Value(c *core.Ctx) {
 		}
 		return ""
 	}
+	mentionsDate := func(e ast.Expr) bool {
+		found := false
+		ast.Inspect(e, func(n ast.Node) bool {
+			if x, ok := n.(ast.Expr); ok && class(x) != "" {
+				found = true
+			}
+			return true
+		})
+		return found
+	}
 	type tc struct {
 		name string
 		env  dateEnv
@@ -305,31 +299,105 @@ func c12Value(c *core.Ctx) {
 		{"start=date", dateEnv{aValid: true, bValid: true, ord: 0}, true},
 		{"start>date", dateEnv{aValid: true, bValid: true, ord: 1}, false},
 	}
+	// The loop body is evaluated for one element under each date case and every
+	// assignment of the conditions that do not concern dates (tags, extensions): the
+	// element is accepted (returned) or passed over (continue / end of body). For a case
+	// the property wants accepted, some assignment must accept; for one it wants
+	// refused, none may.
+	firstMatchOK := true
 	for _, t := range cases {
-		ev := &dateEval{info: info, class: class, env: t.env}
-		val, ok := true, true
-		for _, cond := range conds {
-			v, o := ev.eval(cond)
-			if !o {
-				ok = false
+		key := fd.Name() + "#predicate:" + t.name
+		var free []string
+		known := map[string]bool{}
+		accepted, undecided, deref := false, "", ""
+		for mask := 0; mask < 1<<uint(len(free)) || mask == 0; mask++ {
+			assign := map[string]bool{}
+			for i, k := range free {
+				assign[k] = mask&(1<<uint(i)) != 0
+			}
+			dev := &dateEval{info: info, class: class, env: t.env}
+			ev := &core.AbsEval{Info: info}
+			grew := false
+			ev.Atom = func(e ast.Expr) (any, bool) {
+				e = ast.Unparen(e)
+				if core.IsNil(info, e) {
+					return "nil", true
+				}
+				if core.VarOf(info, e) == elem {
+					return "elem", true
+				}
+				tv := info.TypeOf(e)
+				if tv == nil {
+					return nil, false
+				}
+				if b, ok := tv.Underlying().(*types.Basic); !ok || b.Info()&types.IsBoolean == 0 {
+					return nil, false
+				}
+				switch x := e.(type) {
+				case *ast.BinaryExpr:
+					if x.Op == token.LAND || x.Op == token.LOR {
+						return nil, false
+					}
+				case *ast.UnaryExpr:
+					return nil, false
+				}
+				if mentionsDate(e) {
+					v, ok := dev.eval(e)
+					if !ok {
+						undecided = dev.why
+						return nil, false
+					}
+					return v, true
+				}
+				k := types.ExprString(e)
+				if !known[k] {
+					known[k] = true
+					free = append(free, k)
+					grew = true
+				}
+				return assign[k], true
+			}
+			ev.Branch = func(b *ast.BranchStmt) ([]any, bool) {
+				if b.Tok == token.CONTINUE && b.Label == nil {
+					return []any{"skip"}, true
+				}
+				return nil, false
+			}
+			ret, reached, ok := ev.RunList(loop.Body.List)
+			if dev.deref != "" {
+				deref = dev.deref
+			}
+			if grew {
+				mask = -1 // new free conditions discovered: start the enumeration again
+				continue
+			}
+			if !ok {
+				if undecided == "" {
+					undecided = "the loop body could not be evaluated"
+				}
 				break
 			}
-			val = val && v
-			if !val {
-				break
+			if reached && len(ret) == 1 {
+				switch ret[0] {
+				case "elem":
+					accepted = true
+				case "skip":
+				default:
+					firstMatchOK = false
+				}
 			}
 		}
-		key := fd.Name() + "#predicate:" + t.name
 		switch {
-		case !ok:
-			c.Undecided("C12-R1", key, rets[0].Pos(), ev.why)
-		case ev.deref != "":
-			c.Ob("C12-R1", key, rets[0].Pos(), false, "the predicate dereferences a nil start date: "+ev.deref)
+		case undecided != "":
+			c.Undecided("C12-R1", key, loop.Pos(), undecided)
+		case deref != "":
+			c.Ob("C12-R1", key, loop.Pos(), false, "the predicate dereferences a nil start date: "+deref)
 		default:
-			c.Ob("C12-R1", key, rets[0].Pos(), val == t.want,
-				fmt.Sprintf("for %s the predicate gives accept=%v, the property requires accept=%v (a value takes effect on its start date itself; later values do not apply)", t.name, val, t.want))
+			c.Ob("C12-R1", key, loop.Pos(), accepted == t.want,
+				fmt.Sprintf("for %s the loop gives accept=%v, the property requires accept=%v (a value takes effect on its start date itself; later values do not apply)", t.name, accepted, t.want))
 		}
 	}
+	c.Ob("C12-R1", fd.Name()+"#first-match", loop.Pos(), firstMatchOK, "the loop returns something other than the range element: the first accepted value in table order is not what is returned")
 }
 
 func c12Order(c *core.Ctx) {
